@@ -63,7 +63,7 @@ func init() {
 		Jobs:        c12Jobs,
 		Budget: func(tier string) time.Duration {
 			if tier == "quick" {
-				return 60 * time.Second
+				return 120 * time.Second
 			}
 			return 10 * time.Minute
 		},
